@@ -151,11 +151,23 @@ class Ownership:
                                 return 'ESC', 'passed to external ' + c
             return None
 
+        # pointers other than this object that are null-tested more than once: their outcome is carried along the path, so that
+        # `if (!p) free(q); ... if (p) use(q)` style correlations do not produce infeasible combinations
+        tests = {}
+        for bb in fn.order:
+            tt = bb.insts[-1]
+            if tt.op == 'br' and len(tt.targets) == 2 and tt.ops:
+                cc = fn.defs.get(tt.ops[0])
+                if cc is not None and cc.op == 'icmp' and cc.pred in ('eq', 'ne') and 'null' in cc.ops:
+                    oth = strip_ptr_casts(fn, cc.ops[0] if cc.ops[1] == 'null' else cc.ops[1])
+                    if oth not in A:
+                        tests.setdefault(oth, []).append(bb)
+        correlated = {x for x, bs in tests.items() if len(bs) >= 2}
         reports = []
         seen = {}
-        work = [(site.bb, site.idx + 1, frozenset({'O'}))]
+        work = [(site.bb, site.idx + 1, frozenset({'O'}), frozenset())]
         while work:
-            b, idx, st = work.pop()
+            b, idx, st, facts = work.pop()
             cur = set(st)
             for ins in b.insts[idx:]:
                 ev = event(ins)
@@ -190,13 +202,25 @@ class Ownership:
                 elif c is not None and c.op == 'icmp' and c.pred in ('eq', 'ne') and kind == 'slot' and site.res in c.ops and '0' in c.ops:
                     # posix_memalign(&p, ..) != 0  <=>  nothing was allocated
                     nullinfo = 'ne' if c.pred == 'eq' else 'eq'
+                corr = None
+                if c is not None and c.op == 'icmp' and c.pred in ('eq', 'ne') and 'null' in c.ops:
+                    oth = strip_ptr_casts(fn, c.ops[0] if c.ops[1] == 'null' else c.ops[1])
+                    if oth in correlated:
+                        corr = (oth, c.pred)
                 for k2, lab in enumerate(t.targets):
                     nst = set(cur)
+                    nfacts = facts
+                    if corr:
+                        edge_null = (corr[1] == 'eq' and k2 == 0) or (corr[1] == 'ne' and k2 == 1)
+                        known = dict(facts).get(corr[0])
+                        if known is not None and known != edge_null:
+                            continue                                   # this outcome contradicts an earlier test on the same path
+                        nfacts = frozenset(set(facts) | {(corr[0], edge_null)})
                     if nullinfo:
                         is_null_edge = (nullinfo == 'eq' and k2 == 0) or (nullinfo == 'ne' and k2 == 1)
                         if is_null_edge:
                             nst = {('N' if s == 'O' else s) for s in nst}
-                    self._push(work, seen, fn.blocks[lab], frozenset(nst))
+                    self._push(work, seen, fn.blocks[lab], frozenset(nst), nfacts)
             else:
                 for lab in (t.targets or []):
                     nb = fn.blocks[lab]
@@ -215,17 +239,17 @@ class Ownership:
                                 # this edge returns something else (NULL, an error value) while the object is still owned
                                 reports.append(('leak', site, b.insts[-1], ''))
                                 nst = {x for x in nst if x != 'O'} | {'E'}
-                    self._push(work, seen, nb, frozenset(nst))
+                    self._push(work, seen, nb, frozenset(nst), facts)
         # leaks found at the merged return block are attributed to the edges that bring the owned state in
         return reports
 
     @staticmethod
-    def _push(work, seen, b, st):
-        old = seen.get(b, frozenset())
+    def _push(work, seen, b, st, facts=frozenset()):
+        old = seen.get((b, facts), frozenset())
         new = old | st
         if new != old:
-            seen[b] = new
-            work.append((b, 0, new))
+            seen[(b, facts)] = new
+            work.append((b, 0, new, facts))
 
 def get(prog):
     o = prog.__dict__.get('_own')
